@@ -565,7 +565,14 @@ class PointsTo:
                     self.store(objs, '*', self.read(v, '*'))
                     self._add(self.var(f, n.target.id), objs)
                 else:
-                    self.bind(f, n.target, v)
+                    # x[k] += ys / o.f += ys : in-place on the container already stored there (the object stays,
+                    # its elements grow); only when nothing is known about the place fall back to a rebinding
+                    cur = self.ev(f, n.target)
+                    if cur:
+                        self.sink(f, n, n.target, 'aug')
+                        self.store(cur, '*', self.read(v, '*'))
+                    else:
+                        self.bind(f, n.target, v)
             elif isinstance(n, ast.Delete):
                 for t in n.targets:
                     if isinstance(t, ast.Subscript):
